@@ -33,6 +33,8 @@ enum Case {
     /// re-encoded in a wider form (0xfd / 0xfe / 0xff prefix) with the same value: the transaction still decodes to the same
     /// fields, but its bytes - covered by the txid - have changed, so the merkle root no longer matches
     Widen { height: u64, nth: usize, width: u8 },
+    /// a consistent chain of 120 blocks, one per blk file, under RLIMIT_NOFILE = 40: must pass like any consistent chain
+    ManyFiles,
     /// as Flip, on a chain of merged-mined blocks (header, AuxPoW section, transactions) of namecoin / dogecoin
     AuxFlip { coin: &'static str, height: u64, region: &'static str, which: u8 },
 }
@@ -217,6 +219,7 @@ pub fn run() -> Report {
     for c in COINS.iter() {
         cases.push(Case::WrongGenesis { coin: c.name });
     }
+    cases.push(Case::ManyFiles);
     for cn in ["namecoin", "dogecoin"] {
         for h in 1..3u64 {
             for region in ["prev", "merkle", "tx", "txcount"] {
@@ -497,6 +500,26 @@ pub fn run() -> Report {
                     acc.count(&format!("auxpow-flip:{}", region), 1);
                     if let Some((sig, detail)) = judge_fail(&r, *height) {
                         acc.disagree(&format!("{}:auxpow-block:{}", sig, region), format!("{:?}: {}", c, detail), replay_case(&world, &spec, json!({"must": "fail", "height": height}), &r, &wk.dir));
+                    }
+                }
+                Case::ManyFiles => {
+                    let btc = coin("bitcoin");
+                    let cb = chain_with(btc, 2, 120);
+                    let mut world = World::new(btc);
+                    for (i, b) in cb.blocks.iter().enumerate() {
+                        world.add_block(i as u64, i as u64, b);
+                    }
+                    let mut spec = RunSpec::new("bitcoin", "csvdump").verify(true);
+                    spec.rlimit_nofile = 40;
+                    let r = match wk.world_run(&world, &spec) {
+                        Ok(r) => r,
+                        Err(m) => return acc.machinery(m),
+                    };
+                    acc.count("must-pass", 1);
+                    if r.code != Some(0) {
+                        acc.disagree("consistent-chain-rejected:many-files", format!("120 consistent blocks in 120 blk files, RLIMIT_NOFILE=40: exit {:?}: {}", r.code, r.stderr.lines().take(3).collect::<Vec<_>>().join(" | ")), json!({"kind": "e1-described", "case": "ManyFiles"}));
+                    } else {
+                        acc.count("must-pass-passed", 1);
                     }
                 }
                 Case::Multi { kinds, start } => {
